@@ -292,6 +292,9 @@ def run_check(prop, tier, verif_seed, n_runs=None, workers=None, write_evidence=
                 if cls in seen_classes or len(reported) >= 3:
                     continue
                 seen_classes.add(cls)
+                if os.environ.get('SIMV_NO_SHRINK'):     # mutation screening: first violation is enough
+                    reported.append((write_replay(prop, r['case'], v), v, 0))
+                    break
                 case, vmin, nshrink = pool.submit(_shrink_task, r['case'], v).result(timeout=1800)
                 e2 = match_known(prop.id, vmin, known)
                 if e2 is not None:   # minimisation drifted into a listed finding: keep the original
